@@ -175,10 +175,12 @@ XSet(sc, B, E) ==
 Sess == IF Mode = "chan" THEN ndJsonDeserialize(IOEnv.SESS) ELSE <<>>
 NP(s) == Len(Sess[s].pkts)
 
-RECURSIVE MaskOps(_, _, _)
-MaskOps(f, i, n) == IF i > n THEN <<>>
-                    ELSE (IF f[i] = 0 THEN <<>> ELSE IF f[i] = 1 THEN << <<"p", i>> >> ELSE << <<"p", i>>, <<"p", i>> >>)
-                         \o MaskOps(f, i + 1, n)
+\* packet j of i..n pushed f[j] times (0, 1 or 2), in order; no recursion and no FlattenSeq (TLC overflows its stack on a few
+\* hundred elements): every packet is listed twice and SelectSeq keeps the copies that are wanted
+MaskOps(f, i, n) ==
+  LET all == [q \in 1..(2 * (n - i + 1)) |-> <<i + (q - 1) \div 2, (q - 1) % 2>>]
+      sel == SelectSeq(all, LAMBDA t : f[t[1]] > t[2])
+  IN  [q \in 1..Len(sel) |-> <<"p", sel[q][1]>>]
 PermOps(f, g, n) == FlattenSeq([j \in 1..n |-> IF g[f[j]] = 0 THEN <<>> ELSE << <<"p", f[j]>> >>])
 
 \* object packets of the session (for corruption)
